@@ -10,6 +10,8 @@ scenario_finished).  Optionally the real insert_features coroutine is joined wit
 """
 import itertools
 
+import re
+
 import z3
 
 from checks import common, events, sched
@@ -30,8 +32,27 @@ class Scen:
 class World:
     """one configuration: scenarios pre-queued (parser finished) or delivered by a lazy parser"""
 
-    def __init__(self, scens, limit, fail_fast=False, parser=None):
+    def __init__(self, scens, limit, fail_fast=False, parser=None, sleep_polls=1):
         self.scens, self.limit, self.fail_fast, self.parser = scens, limit, fail_fast, parser
+        self.sleep_polls = sleep_polls      # how many polls of execute() the sleeper thread of a retry delay stays asleep
+
+
+def features_extra_fields(prog, fv):
+    """fields of `Features` beyond the storage and the finished flag (a change may add bookkeeping): initialised like
+    `Default` does for shared atomics; anything else cannot be initialised faithfully -> inconclusive"""
+    from mirsmt import tables as T
+    fl = prog.tables.struct_fields('runner::basic::Features')
+    ft = T.field_types(prog.tables, 'Features', 'runner/basic.rs') or {}
+    for i, n in enumerate(fl):
+        if (None, i) in fv.fields:
+            continue
+        ty = ft.get(n, '')
+        m = re.fullmatch(r'Arc<\s*(?:atomic::)?(Atomic(?:Usize|U64|U32|Bool|Isize|I64))\s*>', ty)
+        if not m:
+            raise Inconclusive('runner::basic::Features has a field `%s: %s` this harness cannot initialise' % (n, ty))
+        init = z3.BoolVal(False) if m.group(1) == 'AtomicBool' else bv(0)
+        fv = fv.with_field((None, i), Ref(Cell(Adt(m.group(1), {(None, 0): init}), name='features.' + n), (), pid=bv(0x60 + i)))
+    return fv
 
 
 def find_fn(prog, last):
@@ -151,7 +172,7 @@ def simulate(chk, world, max_polls=40, loop_bound=14, sleep_polls=1):
     def run(ex_):
         for ri in set(s.rule for s in world.scens if s.rule is not None):
             ex_.add(z3.BitVec('rule%d.%d.len' % (ri, rule_sc), 64) == bv(len([s for s in world.scens if s.rule == ri])))
-        ex_.env['sleep_polls'] = sleep_polls
+        ex_.env['sleep_polls'] = max(sleep_polls, getattr(world, 'sleep_polls', 1))
         ex_.env['time_bound_bits'] = 40
         ex_.add(z3.ULT(z3.BitVec('delay', 64), bv(1 << 40)))
         ex_.env['map_order'] = 'insertion'
@@ -180,14 +201,25 @@ def simulate(chk, world, max_polls=40, loop_bound=14, sleep_polls=1):
         fin_cell = Cell(Adt('AtomicBool', {(None, 0): z3.BoolVal(world.parser is None)}), name='finished')
         fv = Adt('runner::basic::Features', {(None, six.F['scenarios']): Ref(mutex_cell, (), pid=bv(0x51)),
                                              (None, six.F['finished']): Ref(fin_cell, (), pid=bv(0x52))})
+        fv = features_extra_fields(prog, fv)
+        # the option values `execute` / `insert_features` really receive: computed by the real prefix of Basic::run
+        # from the builder settings of this world (fail-fast and the limit given by the builder, nothing on the CLI)
+        from checks import run_prefix
+        real = run_prefix.real_args(chk, ex_, M, builder={
+            'fail_fast': z3.BoolVal(world.fail_fast),
+            'max_concurrent_scenarios': Adt('Option<usize>', {(1, 0): bv(world.limit or 0)}, 0 if world.limit is None else 1)})
+        known = ('features', 'max_concurrent_scenarios', 'collection', 'event_sender', 'before_hook', 'after_hook', 'fail_fast', 'cli')
+        if any(n not in known for n in ep) or any(n not in ep for n in known[:6] if n != 'max_concurrent_scenarios'):
+            raise Inconclusive('execute parameters %s' % sorted(ep))
         args = [None] * len(execute.params)
+        for nm in ('max_concurrent_scenarios', 'fail_fast', 'cli'):
+            if nm in ep:
+                args[ep[nm]] = real['execute'][ep[nm]]
         args[ep['features']] = fv
-        args[ep['max_concurrent_scenarios']] = Adt('Option<usize>', {(1, 0): bv(world.limit or 0)}, 0 if world.limit is None else 1)
         args[ep['collection']] = Lazy('step::Collection<W>', 'collection')
         args[ep['event_sender']] = Lazy('UnboundedSender', 'event_sender')
         args[ep['before_hook']] = Lazy('Option<Before>', 'before')
         args[ep['after_hook']] = Lazy('Option<After>', 'after')
-        args[ep['fail_fast']] = z3.BoolVal(world.fail_fast)
         co = ex_.call_body(execute, args)
         cocell = Cell(co, name='execute')
         pin = Adt('Pin<&mut coroutine>', {(None, 0): Ref(cocell, ())})
@@ -195,10 +227,13 @@ def simulate(chk, world, max_polls=40, loop_bound=14, sleep_polls=1):
         body = ex_.prog.poll_body(co.ty, ex_.coro_origin.get(co.ty))
         ing = None
         if world.parser is not None:
-            ing = make_ingester(ex_, M, prog, world, fv)
-        polls, done = 0, False
+            ing = make_ingester(ex_, M, prog, world, fv, real['insert_features'])
+        polls, done, exe_done = 0, False, False
         while polls < max_polls:
             polls += 1
+            if exe_done and (ing is None or ing['done']):
+                done = True
+                break
             if ing is not None and not ing['done']:
                 # futures::join polls the ingester first, then execute, on every poll
                 try:
@@ -210,6 +245,8 @@ def simulate(chk, world, max_polls=40, loop_bound=14, sleep_polls=1):
                 if ex_.branch(M.discr(ex_, ri) == bv(0)):
                     ing['done'] = True
                     M.log(ex_, 'ingester_done')
+            if exe_done:
+                continue        # futures::join keeps polling the ingester alone once execute has completed
             M.log(ex_, 'poll_execute', n=polls)
             try:
                 r = ex_.call_body(body, [pin, cx])
@@ -218,8 +255,11 @@ def simulate(chk, world, max_polls=40, loop_bound=14, sleep_polls=1):
                     return {'log': list(ex_.env.get('log', [])), 'polls': polls, 'done': False, 'spin': e.msg, 'hook': ex_.env.get('panic_hook')}
                 raise
             if ex_.branch(M.discr(ex_, r) == bv(0)):
-                done = ing is None or ing['done']
-                break
+                exe_done = True
+                M.log(ex_, 'execute_done')
+                if ing is None or ing['done']:
+                    done = True
+                    break
         return {'log': list(ex_.env.get('log', [])), 'polls': polls, 'done': done, 'spin': None, 'hook': ex_.env.get('panic_hook', 'original'),
                 'storage': mutex_cell.v, 'M': M, 'ex': ex_}
     out = []
@@ -252,7 +292,7 @@ def simulate(chk, world, max_polls=40, loop_bound=14, sleep_polls=1):
     return out, ex
 
 
-def make_ingester(ex, M, prog, world, fv):
+def make_ingester(ex, M, prog, world, fv, real):
     """the real insert_features coroutine over a lazy parser stream of concrete-shaped features"""
     from checks import tagsets
     insf = find_fn(prog, 'insert_features')
@@ -262,6 +302,9 @@ def make_ingester(ex, M, prog, world, fv):
     six = sched.SIdx(prog)
     items = []
     for late, fi in world.parser:
+        if fi == 'end':
+            items.append((late, M.STREAM_END))      # the stream ends `late` polls after its last item
+            continue
         tops = [s for s in world.scens if s.feature == fi and s.rule is None]
         rules = sorted(set(s.rule for s in world.scens if s.feature == fi and s.rule is not None))
 
@@ -305,8 +348,12 @@ def make_ingester(ex, M, prog, world, fv):
     args[ip['which_scenario']] = Lazy('F', 'which')
     args[ip['retries']] = Ref(Cell(Lazy('dyn Fn', 'retry_fn'), name='retry_fn'), (), pid=bv(0x77))
     args[ip['sender']] = Lazy('UnboundedSender', 'event_sender')
-    args[ip['cli']] = Lazy('runner::basic::Cli', 'cli')
-    args[ip['fail_fast']] = z3.BoolVal(world.fail_fast)
+    known = ('into', 'features_stream', 'which_scenario', 'retries', 'sender', 'cli', 'fail_fast')
+    if any(n not in known for n in ip):
+        raise Inconclusive('insert_features parameters %s' % sorted(ip))
+    for nm in ('cli', 'fail_fast'):
+        if nm in ip:
+            args[ip[nm]] = real[ip[nm]]
     co = ex.call_body(insf, args)
     cell = Cell(co, name='insert_features')
     return {'body': ex.prog.poll_body(co.ty, ex.coro_origin.get(co.ty)), 'pin': Adt('Pin<&mut coroutine>', {(None, 0): Ref(cell, ())}), 'done': False}
@@ -441,6 +488,15 @@ def oracles(world, res):
                         if so and so[0] > r1[0] and (world.limit is None or world.limit >= 2):
                             bad.append('%s had to wait for the delayed retry of %s' % (o_, n))
     out['others-run-during-retry-delay'] = '; '.join(bad) if bad else None
+    # execute() may block on the helper thread that sleeps out a retry delay only when nothing is in flight: an attempt
+    # in flight is polled from the same loop, so blocking there freezes it for the whole delay
+    bad = []
+    for i, e in enumerate(tl):
+        if e[0] == 'sleeper_thread_spawned':
+            inflight = [(x[1], x[2]) for x in tl[:i] if x[0] == 'start' and not any(y[0] == 'finish' and y[1] == x[1] and y[2] == x[2] for y in tl[:i])]
+            if inflight:
+                bad.append('execute blocks on the retry-delay sleeper while %s in flight' % inflight)
+    out['in-flight-attempts-progress-during-retry-delay'] = '; '.join(bad) if bad else None
     # C08
     if world.fail_fast and final_fail and res['done']:
         i0 = final_fail[0]
@@ -479,6 +535,11 @@ def check_framing(tl, spec):
         return 'first event is not run-Started: %s' % (evs[:1],)
     if evs[-1] != ('run', 'Finished'):
         return 'last event is not run-Finished'
+    sent = [e for e in tl if e[0] in ('run', 'bracket', 'event', 'error')]
+    if sent and sent[-1] != ('run', 'Finished'):
+        return 'run-Finished is not the last item of the stream: %s follows it' % (sent[-1],)
+    if len([e for e in sent if e == ('event', 'ParsingFinished')]) > 1:
+        return 'more than one ParsingFinished'
     if len([e for e in evs if e[0] == 'run']) != 2:
         return 'run brackets not exactly once'
     open_f, open_r, closed = {}, {}, set()
@@ -536,7 +597,7 @@ def world_script(world, res, scale=1):
     beh = []
     late_of = dict((fi, late) for late, fi in (world.parser or []))
     if world.parser:
-        feats = [fi for _, fi in world.parser]
+        feats = [fi for _, fi in world.parser if fi != 'end']
     for fi in feats:
         lines += ['feature late=%d' % (late_of.get(fi, 0) * scale), '| Feature: f%d' % fi]
         tops = [s for s in world.scens if s.feature == fi and s.rule is None]
@@ -558,13 +619,17 @@ def world_script(world, res, scale=1):
                 nfail += 1
             d = s.durs[0] * scale
             allfail = nfail > (s.budget or 0)
-            beh.append('step st%s yields=%d %s' % (s.name, d, 'always_fail' if allfail else 'fail_first=%d' % nfail))
+            # last resort scale: attempts that take many polls also take real time (longer than the 300 ms retry delay)
+            busy = ' busy_ms=700' if scale >= 25 and s.durs[0] >= 3 and any(x.delay for x in world.scens) else ''
+            beh.append('step st%s yields=%d%s %s' % (s.name, d, busy, 'always_fail' if allfail else 'fail_first=%d' % nfail))
         for s in tops:
             emit(s, '  ')
         for ri in rules:
             lines.append('|   Rule: r%d' % ri)
             for s in [x for x in world.scens if x.feature == fi and x.rule == ri]:
                 emit(s, '    ')
+    if 'end' in late_of:
+        lines.append('parser_end late=%d' % (late_of['end'] * scale))
     return lines + beh
 
 
@@ -581,6 +646,10 @@ def native_timeline(out):
             tl.append(('run', 'Started'))
         elif e == 'finished':
             tl.append(('run', 'Finished'))
+        elif e.startswith('parsing_finished'):
+            tl.append(('event', 'ParsingFinished'))
+        elif e == 'err':
+            tl.append(('error',))
         elif m:
             sc, what, r = m.group(1), m.group(2), m.group(3)
             att = 0 if r == '-' else int(r.split('/')[0])
@@ -622,6 +691,24 @@ def native_oracle(world, name, tl, done):
         # Started is emitted at the first poll, in the loop turn that dispatched the attempt: a start after the
         # final failure's Finished event was dispatched after that failure was observable
         return 'after the final failure of %s, %s still started' % (tl[ff[0]][1], [e[1] for e in late]) if late else None
+    if name == 'in-flight-attempts-progress-during-retry-delay':
+        # natively the delay is 300 ms and a yield costs microseconds: an attempt that was in flight when the delayed
+        # scenario failed finishes long before the retried attempt may start
+        spec = {s.name: s for s in world.scens}
+        bad = []
+        for n, sp in spec.items():
+            if not sp.delay:
+                continue
+            f0 = [i for i, e in enumerate(tl) if e[0] == 'finish' and e[1] == n and e[2] == 0]
+            r1 = [i for i, e in enumerate(tl) if e[0] == 'start' and e[1] == n and e[2] == 1]
+            if not f0 or not r1:
+                continue
+            for o_ in spec:
+                so = [i for i, e in enumerate(tl) if e[0] == 'start' and e[1] == o_ and e[2] == 0]
+                fo = [i for i, e in enumerate(tl) if e[0] == 'finish' and e[1] == o_ and e[2] == 0]
+                if o_ != n and so and so[0] < f0[0] and (not fo or fo[0] > r1[0]):
+                    bad.append('%s was in flight when %s failed and finished only after %s#1 started (300 ms later)' % (o_, n, n))
+        return '; '.join(bad) if bad else None
     orc = oracles(world, res)
     return orc.get(name)
 
@@ -634,7 +721,7 @@ def confirm_native(chk, o, prop, name):
     d = os.path.join(common.EVID, 'replay')
     os.makedirs(d, exist_ok=True)
     tried = []
-    for scale in (1, 2, 5):
+    for scale in (1, 2, 5, 25):
         path = os.path.join(d, '%s-execute-%s-x%d.script' % (prop, name.replace('<', 'le').replace('=', ''), scale))
         r, out = replay.run_script('\n'.join(['mode runner'] + world_script(world, res, scale)) + '\n', path, timeout=60)
         chk.replays += 1
